@@ -160,36 +160,72 @@ def replay_order(w):
     return {"violated": bad, "observed": f"d={w['d']}"}
 
 
-def _subsets_concrete():
-    """NOT solver-decided: every k-subset owns exactly one leaf in each generated tree; executed with real keys"""
+def _leaf_facts(k, n):
+    """structural facts about the generated trees for one (k, n), on real keys: returns the list of problems"""
     from buidl import pecc, taproot
     from itertools import combinations
-    ok = True
-    detail = []
-    for n in range(2, 5):
-        pts = [pecc.PrivateKey(1000 + 7 * i).point for i in range(n)]
-        for k in range(1, n + 1):
-            t = taproot.TapRootMultiSig(pts, k)
-            tree = t.multi_leaf_tree()
-            leaves = tree.leaves()
-            want = [sorted(p.xonly() for p in c) for c in combinations(pts, k)]
-            got = [sorted(p.xonly() for p in lf.tap_script.points) for lf in leaves]
-            good = sorted(got) == sorted(want) and len(got) == len(want)
-            if k >= 2:
-                mt = t.musig_tree()
-                good = good and len(mt.leaves()) == len(want)
-            ok = ok and good
-            detail.append((k, n, len(got)))
-    return ok, f"(k, n, leaves): {detail}"
+    pts = [pecc.PrivateKey(1000 + 7 * i).point for i in range(n)]
+    xs = sorted(p.xonly() for p in pts)
+    t = taproot.TapRootMultiSig(pts, k)
+    probs = []
+    # single leaf: one script that commits to ALL n keys and the threshold k (CHECKSIG, then CHECKSIGADD per further key, k, EQUAL)
+    cmds = list(t.single_leaf().tap_script.commands)
+    want = [xs[0], 0xAC]
+    if n > 1:
+        for x in xs[1:]:
+            want += [x, 0xBA]
+        want += [80 + k, 0x87]
+    if cmds != want:
+        probs.append(f"single_leaf script for {k}-of-{n} is not <keys..> CHECKSIG/CHECKSIGADD {k} EQUAL over all {n} keys")
+    want_sets = sorted(sorted(p.xonly() for p in c) for c in combinations(pts, k))
+    got = sorted(sorted(p.xonly() for p in lf.tap_script.points) for lf in t.multi_leaf_tree().leaves())
+    if got != want_sets:
+        probs.append(f"multi_leaf_tree of {k}-of-{n}: leaves do not correspond one-to-one to the k-subsets")
+    for lf in t.multi_leaf_tree().leaves():
+        ks = sorted(p.xonly() for p in lf.tap_script.points)
+        c = list(lf.tap_script.commands)
+        w = [ks[0], 0xAC]
+        if k > 1:
+            for x in ks[1:]:
+                w += [x, 0xBA]
+            w += [80 + k, 0x87]
+        if c != w:
+            probs.append(f"multi_leaf_tree leaf script of {k}-of-{n} does not require all {k} keys of its subset")
+            break
+    if k >= 2:
+        mt = t.musig_tree().leaves()
+        agg = sorted(taproot.MuSigTapScript(list(c)).point.xonly() for c in combinations(pts, k))
+        if sorted(lf.tap_script.commands[0] for lf in mt) != agg:
+            probs.append(f"musig_tree of {k}-of-{n}: leaves are not the aggregate keys of the k-subsets")
+    return probs
 
 
 def ob_subsets():
-    return conc_run(_subsets_concrete, "k-subset / leaf bijection for (k,n) <= (4,4) (concrete, not solver-decided)")
+    """NOT solver-decided (no symbolic content): the k-subset / leaf correspondence and the leaf script structure of the generated
+    trees, executed with real keys for all 1 <= k <= n <= 4, n >= 2; reported with engine 'concrete'"""
+    import time
+    t0 = time.time()
+    viol = []
+    detail = []
+    for n in range(2, 5):
+        for k in range(1, n + 1):
+            probs = _leaf_facts(k, n)
+            detail.append((k, n, len(probs)))
+            for pr in probs:
+                viol.append({"label": pr, "witness": {"k": k, "n": n}, "replay": "subsets"})
+    return {"engine": "concrete", "stats": core.Stats().asdict(), "classes": {}, "violations": viol, "inconclusive": [],
+            "wall_s": round(time.time() - t0, 3), "sample": {"trusted_base": "tree generators on real keys", "(k, n, problems)": detail},
+            "symbolic": False, "vars": []}
+
+
+def replay_subsets(w):
+    probs = _leaf_facts(w["k"], w["n"])
+    return {"violated": bool(probs), "observed": "; ".join(probs) or "structure as specified"}
 
 
 def obligations(tier):
     q = tier == "quick"
-    obs = [Ob("O3-subsets-concrete", ob_subsets)]
+    obs = [Ob("O3-subsets-concrete", ob_subsets, replay="subsets", budget_s=1500)]
     for n in ((2,) if q else (2, 3)):
         for wr in (False, True):
             obs.append(Ob("O1-aggregate", ob_aggregate, {"n": n, "with_root": wr, "tamper": False}, replay="aggregate", budget_s=3000))
